@@ -355,7 +355,7 @@ pub fn property() -> Property {
         id: "C07",
         run,
         budget: |t| match t {
-            Tier::Quick => 2500,
+            Tier::Quick => 10000,
             Tier::Thorough => 200_000,
         },
         wall_cap_s: |t| match t {
